@@ -702,12 +702,20 @@ func (ip *Interp) mapFind(m *MapV, key Value) *mapEntry {
 	if m == nil {
 		return nil
 	}
+	if s, ok := key.(string); ok && m.nonStr == 0 && !isInterfaceType(m.kt) {
+		return m.sidx[s] // all keys are concrete strings: equality is decided without the solver
+	}
 	for _, e := range m.entries {
 		if ip.ex.Branch(ip.equals(m.kt, e.k, key)) {
 			return e
 		}
 	}
 	return nil
+}
+
+func isInterfaceType(t types.Type) bool {
+	_, ok := t.Underlying().(*types.Interface)
+	return ok
 }
 
 func (ip *Interp) mapSet(m *MapV, key, v Value) {
@@ -722,7 +730,7 @@ func (ip *Interp) mapSet(m *MapV, key, v Value) {
 	if ip.monitorOn {
 		ip.noteMapGrow(m, e)
 	}
-	m.entries = append(m.entries, e)
+	m.add(e)
 }
 
 func (ip *Interp) lookup(instr *ssa.Lookup, x, idx Value) Value {
@@ -923,7 +931,7 @@ func (ip *Interp) callBuiltin(caller *frame, pos token.Pos, fn *ssa.Builtin, arg
 					if ip.monitorOn {
 						ip.noteMapGrow(m, e)
 					}
-					m.entries = append(append([]*mapEntry{}, m.entries[:i]...), m.entries[i+1:]...)
+					m.removeAt(i)
 					break
 				}
 			}
